@@ -769,6 +769,8 @@ def run(ck):
     ck.run_rule("G1", "deferred thunks capture by value", 20, thunks.rule_G1)
     from ..rules import route as _route
     ck.run_rule("BLK.route", "implicit word lists, constants and labels compiled as statements of a block: values, byte order, the label's address", 1, _route.rule_block_route)
+    from . import c03 as _c03
+    ck.run_rule("C03.R7", "addresses inside an included file while the base is still unknown: the include's own base is a polynomial over the outer one (LinearPolynomial algebra, substitution)", 18, _c03.rule_R7)
     ck.run_rule("C02.R6", "address continuation across included and linked files", 3, rule_R6)
     from ..rules import treeimm
     ck.run_rule("G4.re", "the value of '.' inside an expression is the current statement's, also when the same tree node is compiled again", 15, treeimm.rule_reresolve)
